@@ -60,6 +60,11 @@ def injection(labels, r, kind, dtype):
         vals = [top - k for k in range(n)]
         r.shuffle(vals)
         return dict(zip(labels, vals))
+    if kind == "wrap256":
+        # values that a too narrow cast sends to 0 (multiples of 256 / 65536) or onto one another (congruent values)
+        pool = [256, 512, 65536, 131072, 1, 257, 65537, 2, 513, 3, 768]
+        vals = [int(x) for x in r.permutation(pool[: max(n, 4)])][:n] if n <= len(pool) else list(range(1, n + 1))
+        return dict(zip(labels, vals))
     if kind == "beyond16":
         vals = [int(x) for x in r.choice(np.arange(2**16 + 1, min(int(info.max), 2**24 - 1)), size=n, replace=False)]
         return dict(zip(labels, vals))
@@ -148,13 +153,13 @@ def run(case, ctx):
         return
     pl = [int(x) for x in np.unique(pred) if x != 0]
     rl = [int(x) for x in np.unique(refa) if x != 0]
-    kinds = ["random", "reverse", "dtype_max", "beyond16", "dtype_only"]
+    kinds = ["random", "reverse", "dtype_max", "beyond16", "dtype_only", "wrap256"]
     for kind in kinds:
         if it == "SEMANTIC":
             dtype = [np.uint8, np.uint16, np.uint32, np.uint64, np.int8, np.int16, np.int32, np.int64][int(r.integers(0, 8))]
         else:
             dtype = [np.uint8, np.uint16, np.uint32, np.uint64][int(r.integers(0, 4))]
-        if kind == "beyond16" and np.iinfo(dtype).max < 2**17:
+        if kind in ("beyond16", "wrap256") and np.iinfo(dtype).max < 2**18:
             dtype = np.uint32 if it != "SEMANTIC" else [np.uint32, np.int32, np.int64][int(r.integers(0, 3))]
         if kind == "dtype_max" and np.iinfo(dtype).max > 2**24 and r.random() < 0.7:
             dtype = [np.uint8, np.uint16][int(r.integers(0, 2))] if it != "SEMANTIC" else [np.uint8, np.uint16, np.int8, np.int16][int(r.integers(0, 4))]
